@@ -40,6 +40,7 @@ func (t *TransactionCancelTimer) Start() error {
 		case <-timer.C:
 			// Timer fired, process TransactionCancel action
 			log.Infof("TransactionCancelTimer triggered")
+			VerifYieldPoint("timer:fired")
 			if t.fnc != nil {
 				t.fnc()
 			}
